@@ -471,8 +471,8 @@ def _judge_mesh(space, sel, obs, label):
             continue
         si = ov['attrs'].get('start_index')
         si = si[1] if isinstance(si, list) else si
-        if si != world.spec['start_index']:
-            c09.append(('connectivity-start-index', f'{label}: {name} start_index is {si!r}, input had {world.spec["start_index"]}'))
+        if si != world.start_index(t):
+            c09.append(('connectivity-start-index', f'{label}: {name} start_index is {si!r}, input had {world.start_index(t)}'))
             continue
         try:
             got_rows = decode_table(world, obs, t)
